@@ -44,6 +44,7 @@ def check(c: Check):
     clause_k(c)
     clause_l(c)
     clause_m(c)
+    clause_n(c)
     from .common import sweep_records
     sweep_records(c, 'C07-rec', ['exactly_lib.section_document', 'exactly_lib.util.line_source'], floor=8)
 
@@ -736,3 +737,35 @@ def clause_m(c: Check):
              'the document parser recognises a section header with %s, the act-phase parser ends the act source with %s: '
              'a line that only one of them takes for a header is not reported as a malformed header' % (
                  a[0].name, sorted({g.name for g in guards})), ap.loc())
+
+
+# ---------------------------------------------------------------- n
+def clause_n(c: Check):
+    """EVAL the location path of a source element is the inclusion chain of its file, outermost first, FOLLOWED by the
+    location of the element itself (explicit chain of two symbolic links)."""
+    from ..absint import Interp, Hooks, State, ListVal, Sym
+    ix, fo = c.ix, c.fo
+    fli = ix.cls('exactly_lib.section_document.source_location:FileLocationInfo')
+    f = ix.class_member(fli, 'location_path_of')
+    slo = ix.class_member(fli, 'source_location_of')
+
+    class H(Hooks):
+        def inline(self, fd, st):
+            return False
+
+    it = Interp(ix, fo, H())
+    st = State()
+    obj = it.new_obj(fli)
+    l0, l1 = Sym('outer-link', nullness=False), Sym('inner-link', nullness=False)
+    st.heap[(obj.oid, 'file_inclusion_chain')] = ListVal([l0, l1], True)
+    src = Sym('source', nullness=False)
+    n = 0
+    for p in it.run_function(f, {f.positional_params()[1].arg: src}, st, recv=obj):
+        n += 1
+        items = it.concrete_items(p.val) if p.kind == 'return' else None
+        ok = items is not None and len(items) == 3 and items[0] is l0 and items[1] is l1 \
+            and util.origin_call_key(util.root_sym(items[2])) == slo.key
+        c.expect(bool(ok), 'C07-n', 'location_path_of/chain-then-element',
+                 'the location path of an element in a file included through [outer, inner] is %s (expected outer, '
+                 'inner, the element)' % ([util.describe(x) for x in items] if items is not None else p.kind), f.loc())
+    c.floor('C07-n', 'paths of location_path_of', n, 1)
